@@ -118,3 +118,16 @@ Proof.
   inversion H as [|? ? Ha H1]; subst. inversion H1 as [|? ? Hb H2]; subst.
   inversion H2 as [|? ? Hc H3]; subst. inversion H3 as [|? ? Hd H4]; subst. lia.
 Qed.
+
+(* a new-format header is the tag octet 192 + t followed by the SHORTEST new-format length (new_length_shortest): the header as a
+   whole is never longer than any RFC-valid new-format header of the same tag and length, whatever width was stored *)
+Lemma new_tag_value_sweep : forallb (fun t => Z.lor (Z.lor 128 (Z.shiftl 1 6)) t =? 192 + t) tags64 = true.
+Proof. vm_compute. reflexivity. Qed.
+Theorem new_header_emit_shape t n st : 0 <= t < 64 ->
+  header_emit {| h_lenfmt := 1; h_tag := t; h_llen := st; h_len := n |} = Some ((192 + t) :: new_length n).
+Proof.
+  intros Ht. unfold header_emit. cbn [h_lenfmt h_tag h_llen h_len].
+  change (negb (1 =? 0)) with true. cbv iota.
+  pose proof (proj1 (forallb_forall _ tags64) new_tag_value_sweep t (in_tags64 t Ht)) as K. cbv beta in K.
+  apply Z.eqb_eq in K. rewrite K. rewrite int_to_bytes_octet by lia. reflexivity.
+Qed.
